@@ -888,7 +888,9 @@ txverifier.go and txlist.go on every run and tabulates every write / read / list
 lock level held at that point; `Aergo.PoolLocks.violations` makes the table interprocedural — an unexported function that
 is never used as a value is entered with the weakest level over ALL its call sites (fixpoint for helpers of helpers; no
 call site ⇒ none), so extracting a helper that is called where the lock is already held changes nothing, while a helper
-with one unlocked call site is unlocked — and lists what is not sufficiently locked. -/
+with one unlocked call site is unlocked — and lists what is not sufficiently locked. Locals derived from the pool map
+(the lists, the slices `list.Get()` hands out, which share the lists' backing arrays) are followed: every later mention
+is a read `pool~` at the level held there, so releasing the lock before the last use of such a value is flagged. -/
 
 /-- In the current source every write to the pool map, the counters, the best-block fields and the state DB handle,
 every list mutation and every hash-index update happens under the pool's exclusive lock, and every read of those
@@ -901,10 +903,12 @@ theorem lock_discipline : Aergo.PoolLocks.allKnown Aergo.Gen.PoolLocks.fns = tru
 like the real table): a helper called only under the exclusive lock, a helper of such a helper, a plain function taking
 the pool, and a reading helper under the read lock are fine; flagged are exactly: an exported method (callable from
 anywhere), an unlocked read, a helper called after the lock was released, a helper with one locked and one unlocked call
-site, a helper used as a value, a helper writing under the read lock (level 1), a helper without any call site. -/
+site, a helper used as a value, a helper writing under the read lock (level 1), a helper without any call site, and a
+fetch that collects the lists under the read lock, unlocks, and walks them afterwards (`pool~`: a local derived from the
+pool map, read with no lock; the same walk before the deferred unlock and a copied `len(..)` used after it are fine). -/
 theorem lock_checker_selftest :
     Aergo.PoolLocks.violations Aergo.Gen.PoolLocksSynth.fns =
-      [⟨"Exported", 0, "length", 0⟩, ⟨"Peek", 1, "orphan", 0⟩, ⟨"after", 0, "orphan", 0⟩, ⟨"drop", 0, "pool", 0⟩,
+      [⟨"Exported", 0, "length", 0⟩, ⟨"Fetch", 1, "pool~", 0⟩, ⟨"Peek", 1, "orphan", 0⟩, ⟨"after", 0, "orphan", 0⟩, ⟨"drop", 0, "pool", 0⟩,
        ⟨"escaped", 0, "orphan", 0⟩, ⟨"touch", 0, "orphan", 1⟩, ⟨"unused", 0, "length", 0⟩] := by decide
 
 /-- The shape `schedule_inv` assumes for `put`: list insertion, both counter updates, the index update and the
